@@ -12,6 +12,10 @@ from hypothesis import strategies as st
 from tracklib.algo.comparison import (MODE_COMPARISON_FRECHET, MODE_MATCHING_DTW, MODE_MATCHING_FDTW,
                                       MODE_MATCHING_FRECHET, MODE_MATCHING_NN, compare, match)
 
+from tracklib.core.obs import Obs
+from tracklib.core.obs_coords import GeoCoords
+from tracklib.core.track import Track
+
 from vt import gen
 from vt.core import HarnessError, SubCheck, Violation, close
 
@@ -19,7 +23,20 @@ INF = math.inf
 ENUM_CELLS = 36              # enumerate all couplings when n1*n2 <= 36 and both sizes <= 6
 
 ASSUMPTIONS = [
-    "tracks are ENU with 1..10 fixes; distance d = |dz| (dim 1), planar (dim 2) or 3-D (dim 3) Euclidean distance of the two positions",
+    "tracks have 1..10 fixes; for ENU tracks the distance d = |dz| (dim 1), planar (dim 2) or 3-D (dim 3) Euclidean distance of the "
+    "two positions, computed by the check's own arithmetic",
+    "coordinate class (pairs sub-check): both tracks ENU, both geographic (GeoCoords: metres east/north/up x {1, 10, 250} around one of "
+    "6 base points converted with Track.toGeoCoords(base), or longitude / latitude / height given directly on a 1e-4 degree lattice) or "
+    "both geocentric (Track.toECEFCoords(base)). The property is about the optimisation, not the metric: for the non-ENU classes the "
+    "cost matrix of the oracle is filled with tracklib's own point distance (the one comparison._distance selects: "
+    "position.distance2DTo for dim 2, position.distanceTo for dim 3) evaluated on objects built afresh from the case, never on "
+    "the objects handed to match(); enumeration / own DP remain the optimiser. GeoCoords.distance2DTo(q) projects into the local frame "
+    "of q and is therefore not exactly symmetric (about 1e-7 relative); the statement does not say which argument order is 'the' "
+    "distance, so for these classes each call is judged against the matrix in its own argument order and every comparison (score vs "
+    "optimum, coupling cost vs score, swapped score) gets the additional absolute slack (largest asymmetry |d(a,b)-d(b,a)|^p of the "
+    "case) x (longest coupling n1+n2-1; 1 for p = inf)",
+    "dim 1 reads position.U and dim 2 needs distance2DTo: the unchanged code raises AttributeError for GeoCoords with dim 1 and for "
+    "ECEFCoords with dim 1 or 2; these combinations are not generated and nothing is demanded for them (undef); mixed classes are not generated",
     "coupling cost = sum of d^p over the coupled pairs for p in {1, 2}, maximum of d for p = inf; a coupling starts at (first, first), "
     "ends at (last, last) and advances by one step in either or both tracks",
     "reference optimum = minimum over the complete enumeration of couplings when both sizes <= 6 (<= 1683 couplings); an own DP, "
@@ -110,16 +127,79 @@ def _tie_classes(T):
     return out
 
 
-def _reference(t1, t2, dim, p):
-    C = _costs(t1, t2, dim, p)
+def _reference_of(C, p, what=""):
+    """optimum of the coupling problem with cost matrix C (rows = fixes of track 2, columns = fixes of track 1)"""
+    n2, n1 = len(C), len(C[0])
     T = _dp(C, p)
     opt = T[-1][-1]
-    enumerated = len(t1) <= 6 and len(t2) <= 6 and len(t1) * len(t2) <= ENUM_CELLS
+    enumerated = n1 <= 6 and n2 <= 6 and n1 * n2 <= ENUM_CELLS
     if enumerated:
         e, npaths = _enum_opt(C, p)
         if e != opt:
-            raise HarnessError("reference DP %r and enumeration %r disagree on %s / %s p=%s dim=%s" % (opt, e, t1, t2, p, dim))
+            raise HarnessError("reference DP %r and enumeration %r disagree on %s p=%s" % (opt, e, what or C, p))
     return C, T, opt, enumerated
+
+
+def _reference(t1, t2, dim, p):
+    return _reference_of(_costs(t1, t2, dim, p), p, "%s / %s dim=%s" % (t1, t2, dim))
+
+
+# ------------------------------------------------------------------------------------------------
+# coordinate classes.  The property is about the optimisation, not about the metric: for tracks that are not ENU the
+# point distance is tracklib's own (the call comparison._distance makes: dim 2 -> position.distance2DTo, dim 3 ->
+# position.distanceTo), evaluated on objects built afresh from the case - never on the objects handed to match().
+BASES = [[2.3488, 48.8534, 35.0], [0.0, 0.0, 0.0], [-70.65, -33.45, 520.0], [139.75, 35.68, 40.0], [-122.5, 64.0, 0.0],
+         [179.9999, -17.5, 3.0]]
+LONLAT0 = [[2.34, 48.85, 30], [0, 0, 0], [-70.65, -33.45, 500], [139.75, 35.68, 0], [-0.0002, 0.0002, 10], [179.9998, 64, 0]]
+SUPPORTED_DIMS = {"enu": (1, 2, 3), "geo": (2, 3), "lonlat": (2, 3), "ecef": (3,)}
+
+
+def _coords_of(case):
+    c = case.get("coords") or {"cls": "enu"}
+    return c if c.get("cls") in SUPPORTED_DIMS else None
+
+
+def _build(pts, coords, feats=None):
+    """a new Track object holding the fixes of the case in the coordinate class of the case"""
+    cls = coords["cls"]
+    if cls == "lonlat":                                   # the numbers of the case ARE longitude, latitude (degrees), height
+        t0 = gen.ms_of_fields(2020, 1, 1)
+        tr = Track([], 1)
+        for k, q in enumerate(pts):
+            tr.addObs(Obs(GeoCoords(float(q[0]), float(q[1]), float(q[2])), gen.obstime_of_ms(t0 + 1000 * k)))
+        return tr
+    s = float(coords.get("scale", 1)) if cls != "enu" else 1.0
+    tr = gen.make_track([tuple(float(v) * s for v in q) for q in pts])
+    if cls == "geo":                                      # metres east / north / up of a base point -> lon, lat, height
+        tr.toGeoCoords(GeoCoords(*[float(v) for v in coords["base"]]))
+    elif cls == "ecef":
+        tr.toECEFCoords(GeoCoords(*[float(v) for v in coords["base"]]))
+    return tr
+
+
+def _lib_term(q2, q1, dim, p):
+    d = float(q2.distance2DTo(q1) if dim == 2 else q2.distanceTo(q1))
+    return d * d if p == 2 else d
+
+
+def _matrices(t1, t2, dim, p, coords):
+    """(C, Cs, slack): C[i][j] = cost of coupling fix i of track 2 with fix j of track 1 as match(track1, track2) sees it,
+    Cs[j][i] the same for match(track2, track1).  ENU: own Euclidean arithmetic, Cs is the transpose.  Other classes: tracklib's
+    point distance on fresh objects, evaluated in the argument order of the respective call; that distance need not be
+    symmetric (GeoCoords.distance2DTo projects into the local frame of its argument), and the statement does not say which
+    order is 'the' point distance, so every comparison gets the absolute slack (largest asymmetry) x (longest coupling)"""
+    if coords["cls"] == "enu":
+        C = _costs(t1, t2, dim, p)
+        return C, [list(r) for r in zip(*C)], 0.0
+    f1, f2 = _build(t1, coords), _build(t2, coords)
+    P1 = [f1.getObs(j).position for j in range(len(t1))]
+    P2 = [f2.getObs(i).position for i in range(len(t2))]
+    C = [[_lib_term(b, a, dim, p) for a in P1] for b in P2]
+    Cs = [[_lib_term(a, b, dim, p) for b in P2] for a in P1]
+    asym = max(abs(C[i][j] - Cs[j][i]) for i in range(len(P2)) for j in range(len(P1)))
+    if not asym < INF:
+        raise HarnessError("point distances of the oracle are not finite for %s / %s %s" % (t1, t2, coords))
+    return C, Cs, asym * (1 if p == INF else len(t1) + len(t2) - 1)
 
 
 # ------------------------------------------------------------------------------------------------
@@ -137,10 +217,10 @@ def _coupling_of(m, n1, what):
     return S
 
 
-def _check_matching(m, C, opt, p, what, ctx):
+def _check_matching(m, C, opt, p, what, ctx, slack=0.0):
     n2, n1 = len(C), len(C[0])
     score = float(m.score)
-    if not close(score, opt, 1e-9, 1e-12):
+    if not close(score, opt, 1e-9, 1e-12 + slack):
         raise Violation(what + "-score-not-optimal", "score %r, optimal coupling cost %r; %s" % (score, opt, ctx))
     S = _coupling_of(m, n1, what)
     bad = None
@@ -163,37 +243,43 @@ def _check_matching(m, C, opt, p, what, ctx):
     acc = 0.0
     for (i, j) in S:
         acc = _acc(acc, C[i][j], p)
-    if not close(acc, score, 1e-9, 1e-12):
+    if not close(acc, score, 1e-9, 1e-12 + slack):
         raise Violation(what + "-coupling-cost-differs-from-score",
                         "returned coupling %s accumulates %r but the score is %r (optimum %r); %s" % (S, acc, score, opt, ctx))
     return S
 
 
-def _check(t1, t2, dim, p, frechet):
-    a = gen.make_track([tuple(float(v) for v in q) for q in t1])
-    b = gen.make_track([tuple(float(v) for v in q) for q in t2])
-    C, T, opt, enumerated = _reference(t1, t2, dim, p)
-    Ct = [list(r) for r in zip(*C)]                      # swapped tracks: transposed cost matrix
+def _check(t1, t2, dim, p, frechet, coords=None, fdtw_first=False):
+    coords = coords or {"cls": "enu"}
+    a = _build(t1, coords)
+    b = _build(t2, coords)
+    C, Cs, slack = _matrices(t1, t2, dim, p, coords)
+    _, T, opt, enumerated = _reference_of(C, p, "%s / %s dim=%s %s" % (t1, t2, dim, coords))
+    opts = opt if slack == 0.0 else _reference_of(Cs, p)[2]        # optimum as the swapped call sees it
     ctx = "t1=%s t2=%s p=%s dim=%s" % (t1, t2, p, dim)
-    for what, mode in (("dtw", MODE_MATCHING_DTW), ("fdtw", MODE_MATCHING_FDTW)):
+    if coords["cls"] != "enu":
+        ctx += " coords=%s" % (coords,)
+    calls = (("dtw", MODE_MATCHING_DTW), ("fdtw", MODE_MATCHING_FDTW))
+    for what, mode in (calls[::-1] if fdtw_first else calls):
         m = match(a, b, mode=mode, p=p, dim=dim, verbose=False, plot=False)
-        _check_matching(m, C, opt, p, what, ctx)
+        _check_matching(m, C, opt, p, what, ctx, slack)
         ms = match(b, a, mode=mode, p=p, dim=dim, verbose=False, plot=False)
-        if not close(float(ms.score), float(m.score), 1e-9, 1e-12):
+        if not close(float(ms.score), float(m.score), 1e-9, 1e-12 + slack):
             raise Violation(what + "-swap-asymmetric", "score %r, swapped %r; %s" % (m.score, ms.score, ctx))
-        _check_matching(ms, Ct, opt, p, what, ctx + " (swapped)")
+        _check_matching(ms, Cs, opts, p, what, ctx + " (swapped)", slack)
     if frechet:
         if p == INF:
-            Cf, of = C, opt
+            Cf, of, sf = C, opt, slack
         else:
-            Cf, _, of, _ = _reference(t1, t2, dim, INF)
+            Cf, _, sf = _matrices(t1, t2, dim, INF, coords)
+            of = _reference_of(Cf, INF)[2]
         m = match(a, b, mode=MODE_MATCHING_FRECHET, p=p, dim=dim, verbose=False, plot=False)
-        _check_matching(m, Cf, of, INF, "dtw", ctx + " mode=FRECHET")
+        _check_matching(m, Cf, of, INF, "dtw", ctx + " mode=FRECHET", sf)
         v = compare(a, b, mode=MODE_COMPARISON_FRECHET, p=p, dim=dim, verbose=False, plot=False)
-        if not close(float(v), of, 1e-9, 1e-12):
+        if not close(float(v), of, 1e-9, 1e-12 + sf):
             raise Violation("frechet-compare-wrong", "compare(FRECHET) = %r, discrete Frechet distance %r; %s" % (v, of, ctx))
         vs = compare(b, a, mode=MODE_COMPARISON_FRECHET, p=p, dim=dim, verbose=False, plot=False)
-        if not close(float(vs), float(v), 1e-9, 1e-12):
+        if not close(float(vs), float(v), 1e-9, 1e-12 + sf):
             raise Violation("frechet-compare-asymmetric", "compare(FRECHET) = %r, swapped %r; %s" % (v, vs, ctx))
     ties = _tie_classes(T)
     return ties, enumerated
@@ -269,20 +355,45 @@ def strat_pair(draw):
         t1 = [[draw(f), draw(f), draw(f)] for _ in range(n1)]
         t2 = [[draw(f), draw(f), draw(f)] for _ in range(n2)]
     p = draw(st.sampled_from([1, 2, "inf"]))
-    dim = draw(st.sampled_from([1, 2, 2, 3]))
-    return {"t1": t1, "t2": t2, "p": p, "dim": dim}
+    # coordinate class of the two tracks: local ENU (the first version of this sub-check), geographic (the ENU numbers are
+    # metres x scale around a base point, converted with Track.toGeoCoords(base); or lon / lat / height given directly on a
+    # 1e-4 degree lattice), geocentric (Track.toECEFCoords(base))
+    cc = draw(st.sampled_from(["enu"] * 5 + ["geo", "geo", "lonlat", "lonlat", "ecef"]))
+    case = {"t1": t1, "t2": t2, "p": p}
+    if cc == "enu":
+        case["dim"] = draw(st.sampled_from([1, 2, 2, 3]))
+        return case
+    case["dim"] = 3 if cc == "ecef" else draw(st.sampled_from([2, 2, 3]))
+    case["fdtw_first"] = draw(st.booleans())
+    if cc == "lonlat":
+        o = draw(st.sampled_from(LONLAT0))
+        case["t1"] = [[o[0] + q[0] * 1e-4, o[1] + q[1] * 1e-4, o[2] + q[2]] for q in t1]
+        case["t2"] = [[o[0] + q[0] * 1e-4, o[1] + q[1] * 1e-4, o[2] + q[2]] for q in t2]
+        case["coords"] = {"cls": "lonlat"}
+    else:
+        case["coords"] = {"cls": cc, "base": draw(st.sampled_from(BASES)), "scale": draw(st.sampled_from([1, 10, 250]))}
+    return case
 
 
 def body_pair(case):
     p = _p_of(case["p"])
     dim = int(case["dim"])
     t1, t2 = case["t1"], case["t2"]
-    if not t1 or not t2 or dim not in (1, 2, 3) or p not in (1, 2, INF):
+    coords = _coords_of(case)
+    if not t1 or not t2 or dim not in (1, 2, 3) or p not in (1, 2, INF) or coords is None:
         return {"undef": True}
-    ties, enumerated = _check(t1, t2, dim, p, frechet=(p == INF))
+    if dim not in SUPPORTED_DIMS[coords["cls"]]:
+        # comparison._distance reads .U (dim 1) / calls distance2DTo (dim 2), which only ENUCoords (/ GeoCoords) have:
+        # the unchanged code raises AttributeError; not generated, nothing demanded
+        return {"undef": True, "cls": ["dim-%d-not-available-for-%s" % (dim, coords["cls"])]}
+    ties, enumerated = _check(t1, t2, dim, p, frechet=(p == INF), coords=coords, fdtw_first=bool(case.get("fdtw_first")))
     cls = sorted(ties) or ["no-tie"]
     cls += ["p=%s" % p, "dim=%d" % dim, "oracle=enumeration" if enumerated else "oracle=dp",
-            "size1" if min(len(t1), len(t2)) == 1 else "sizes>=2"]
+            "size1" if min(len(t1), len(t2)) == 1 else "sizes>=2", "coords=" + coords["cls"]]
+    if coords["cls"] != "enu":
+        cls.append("non-enu,first-fixes-%s" % ("equal" if t1[0] == t2[0] else "differ"))
+        cls.append("non-enu,%s" % ("fdtw-called-first" if case.get("fdtw_first") else "dtw-called-first"))
+        cls.append("non-enu,%s" % ("tie" if ties else "no-tie"))
     return {"nt": bool(ties), "cls": cls}
 
 
@@ -502,7 +613,10 @@ def body_history(case):
 RULE = ("small: every unordered pair of tracks with <= 2 (quick) / <= 3 (thorough) fixes on the lattice {0,1,2}^2, each with p in "
         "{1, 2, inf}, dim 2, modes DTW and FDTW in both argument orders, plus match/compare FRECHET; pairs: Hypothesis - sizes 1..6 "
         "(1/8: 7..10) on {0,1,2}^3, {-2..2}^3, a track and its displaced resampling, {0,1}^2 stationary stretches, dyadic floats; "
-        "p in {1,2,inf}, dim in {1,2,3}. Non-trivial: some cell of the reference DP table has two or more predecessors of equal "
+        "p in {1,2,inf}, dim in {1,2,3}; coordinate class of both tracks: ENU (5 in 10, as in the first version), geographic from "
+        "ENU metres via toGeoCoords(base) (2 in 10), geographic lon/lat lattice (2 in 10; dim 2 or 3), geocentric via "
+        "toECEFCoords(base) (1 in 10; dim 3), and for the non-ENU classes which of DTW / FDTW is called first on the two objects. "
+        "Non-trivial: some cell of the reference DP table has two or more predecessors of equal "
         "accumulated cost (the back-pointer rule matters). histories: Hypothesis - a base track (optionally carrying analytical "
         "features, also ones named 'diff'/'ex') and 1..3 reference tracks, 1..3 steps out = match(current, ref_k, mode in "
         "{DTW, FDTW, FRECHET, NN}, p, dim) with current := out (or, 1 in 4, match(ref_k, current)); every non-NN result is checked "
